@@ -79,6 +79,12 @@ def run(prog, rep, tier):
     r6_6(prog, rep, pp)
     # R6.7 rows of groups seen in training keep their slots: the new-group block is decided from the factor's indicators alone
     shared.new_group_block(prog, rep, "R6.7")
+    # center / scale / bs / poly freeze their parameters because the names resolve to formulae's stateful classes: a function
+    # of the same name in the caller's namespace must not capture them (C11's R11.1 / R11.2, reported here as R6.8)
+    from . import C11
+    from ..core import reuse_rule
+    reuse_rule(rep, C11.r11_2, "R6.8", prog)
+    reuse_rule(rep, C11.r11_1, "R6.8", prog)
     rep.floor("R6.1", 8)
     rep.floor("R6.2", 8)
     rep.floor("R6.3", 6)
